@@ -125,7 +125,9 @@ def cases(tier, seed):
     res = []
     for k, c in enumerate(out):
         if k % (5 if q else 2) == 0 and not c.get("sys"):
-            for r in ((1 + k % 5,) if q else (1 + k % 5, 2 + (k // 2) % 6)):
+            j = k // (5 if q else 2)
+            # lengths of the first call: before / at / after the start iteration, inside and at the end of a period
+            for r in ((1 + j % 6,) if q else (1 + j % 6, 2 + (j // 2) % 7)):
                 res.append(dict(c, resume=r))
     out += res
     # end-to-end through jinns.solve (hooks H1 + H2)
